@@ -13,6 +13,7 @@
   occurs at most once.
 -/
 import Amqp.Handles
+import Amqp.Gen.RoutingKernels
 
 namespace Amqp.Routing
 open Amqp.Handles
@@ -122,5 +123,24 @@ def desigStep (d : Desig) : Op → Out → Desig
   | .inAttach _ h, .to lid => d.set h lid
   | .inDetach h, .to _ => d.clear h
   | _, _ => d
+
+/-- source facts (regenerated from session/mod.rs on every run): the statements this model mirrors are
+    there, and in this order — `allocate_link` looks the name up before it takes a slot and records the
+    name after; `deallocate_link` frees the slot and forgets the name; the peer's attach is looked up by
+    name, the waiting relay is TAKEN (so a second attach finds none) and stored under the peer's
+    handle; the peer's detach REMOVES the entry of its handle; a transfer is looked up under its handle -/
+def sourceShape : Bool :=
+  open Amqp.Gen.RoutingK in
+  decide (allocate_link_order.idx_link_by_name___contains_key < allocate_link_order.idx_vacant_entry) &&
+  decide (allocate_link_order.idx_vacant_entry < allocate_link_order.idx_entry___insert) &&
+  decide (allocate_link_order.idx_entry___insert < allocate_link_order.idx_link_by_name___insert) &&
+  decide (allocate_link_order.idx_link_by_name___insert < 1000) &&
+  decide (deallocate_link_order.idx_link_name_by_output_handle___try_remove < deallocate_link_order.idx_link_by_name___remove) &&
+  decide (deallocate_link_order.idx_link_by_name___remove < 1000) &&
+  decide (on_incoming_attach_order.idx_link_by_name___get_mut < on_incoming_attach_order.idx_link___take____) &&
+  decide (on_incoming_attach_order.idx_link___take____ < on_incoming_attach_order.idx_link_by_input_handle___insert) &&
+  decide (on_incoming_attach_order.idx_link_by_input_handle___insert < 1000) &&
+  decide (on_incoming_detach_order.idx_link_by_input_handle___remove < 1000) &&
+  decide (on_incoming_transfer_order.idx_link_by_input_handle___get_mut < 1000)
 
 end Amqp.Routing
